@@ -1029,7 +1029,7 @@ def rule_R12cell(text, applied, arg=None):
         text = t
         cnt += n1 + n2 + n3
     if "mutself" in args:
-        t, n1 = _sub_masked(text, r"\(\s*&self\b", lambda m, s: "(&mut self")
+        t, n1 = _sub_masked(text, r"\(\s*&self\b(?=\s*[,)])", lambda m, s: "(&mut self")
         text = t
         cnt += n1
     applied.append(f"R12cell({arg})x{cnt}")
